@@ -470,3 +470,14 @@ def r3(ctx):
         ok = match(a[0], Call('CharString::new', ('arg', 1, ANY), ('arg', 3, ANY))) and match(a[1], Call('CharString::new', ('arg', 2, ANY), ('arg', 3, ANY))) \
             and match(a[2], ('arg', 4, ANY)) and match(a[3], ('arg', 5, ANY))
     ctx.require(ok, b, 'dp-args', 'operations() backtraces the DP of (a, b) with the caller\'s flags', None)
+
+
+@rule('C12', 'R-C12-4', 'T11 SIBLING (one segmentation)',
+      'every CharString::new of the edit distance code receives the caller\'s grapheme flag unchanged (a parameter, configuration field or '
+      'captured variable): a site that "optimises" the flag (e.g. `use_graphemes && !s.is_ascii()`) segments "\\r\\n" and friends '
+      'differently from the sites it must agree with')
+def r_segflag(ctx):
+    from rules.common import check_segmentation_flag
+    n = check_segmentation_flag(ctx, [ctx.body(n) for n in ['edit::distance', 'edit::operations', 'edit::prefix_distance']], 'edit distance')
+    if n == 0:
+        raise AnchorMissing('CharString::new sites of the edit distance code')
